@@ -4,9 +4,10 @@ for ID in "$@"; do
   for k in 1 2; do
     src=/tmp/wt4/$ID/out/$k
     [ -f $src/patch.diff ] || continue
+    [ -f /tmp/r4/$ID/$k/confirm.json ] && continue
     mkdir -p /tmp/r4/$ID/$k
     cp $src/patch.diff $src/demo.rs $src/meta.json /tmp/r4/$ID/$k/
-    /verif/tools/confirm_mutant.sh /tmp/wt4/$ID /tmp/r4/$ID/$k > /tmp/r4/$ID/$k/confirm.out 2>&1
+    /verif/tools/confirm_mutant.sh /tmp/wt4/$ID /tmp/r4/$ID/$k > /tmp/r4/$ID/$k/confirm.out 2>&1 < /dev/null
     echo "$ID/$k $(cat /tmp/r4/$ID/$k/confirm.json)"
   done
 done
